@@ -52,9 +52,16 @@ func observe(seed int64, nInputs, reps int) []map[string]any {
 					}
 				}
 			}
+			// default options before and after the PDF form (options are the caller's, not the package's)
+			var nb bytes.Buffer
+			f.Write(&nb, nil)
+			rec("Font.Write/default-options", in, sha(nb.Bytes()), 2*r)
 			var buf bytes.Buffer
 			l1, l2, _ := f.WritePDF(&buf)
 			rec("Font.WritePDF", in, sha(buf.Bytes())+fmt.Sprint(l1, l2), r)
+			nb.Reset()
+			f.Write(&nb, nil)
+			rec("Font.Write/default-options", in, sha(nb.Bytes()), 2*r+1)
 		}
 		// query methods whose answer is a list: glyph names that differ only in case, most of them unencoded
 		{
@@ -62,10 +69,20 @@ func observe(seed int64, nInputs, reps int) []map[string]any {
 			for _, nm := range []string{"Aacute", "aacute", "Agrave", "agrave", "AE", "ae", "Zcaron", "zcaron", "Eth", "eth", "ETH", "Ae"} {
 				cf.Glyphs[nm] = &type1.Glyph{WidthX: 500}
 			}
+			// glyph names longer than the 127 bytes a PostScript name may have, equal in their first 127 bytes
+			long := strings.Repeat("uni0041", 18) + "u"
+			for k, sfx := range []string{"0042", "0043", "0044"} {
+				g := &type1.Glyph{WidthX: float64(300 + 10*k)}
+				g.MoveTo(0, 0)
+				g.LineTo(float64(100+k), float64(50*k))
+				g.ClosePath()
+				cf.Glyphs[long+sfx] = g
+			}
 			for r := 0; r < reps; r++ {
 				rec("Font.GlyphList", in, sha([]byte(strings.Join(cf.GlyphList(), " "))), r)
 				var buf bytes.Buffer
 				cf.Write(&buf, &type1.WriterOptions{Format: type1.FormatNoEExec})
+				rec("Font.Write/long-names", in, sha(buf.Bytes()), r)
 				if g, err := type1.Read(bytes.NewReader(buf.Bytes())); err == nil {
 					rec("Read+GlyphList", in, sha([]byte(strings.Join(g.GlyphList(), " "))), r)
 				}
